@@ -71,6 +71,17 @@ const (
 	//     nothing restarts it, the index stays behind for good, Commit (which waits for indexing) never returns.
 	//     Witness: fewer doIndexing goroutines than indexes while an index does not catch up.
 	c04SigIndexerGone = "C04:indexer.doIndexing:indexing-goroutine-gone-after-compaction-of-source-index"
+	// D4: TBtree.Compact dumps `snap := t.newSnapshot(0, t.root)` WITHOUT registering it in t.snapshots.  flushTree, run by
+	//     the indexer's BulkInsert (FlushThld) while the dump is being written without the tree lock, protects only the
+	//     registered snapshots when a synced flush discards the node-log chunks below the new root's minimum offset
+	//     (`for _, snap := range t.snapshots`): the chunk files the dumped root still points into are removed, the dump's
+	//     node read gets io.EOF (multiapp.ReadAt maps a missing chunk file to EOF) and Compact fails with
+	//     "dumping index … returned: EOF".  Nothing is lost: CompactIndex returns before restartIndex, the live tree only
+	//     references newer offsets, the half-written nodes<ts>/commit<ts> folders are discarded by the next Open; a later
+	//     compaction works.  Recognised by its cause: the node-log appendable of the index received DiscardUpto while a
+	//     dump of that index was reading (hook), and the error names that index and is EOF.  The oracle then goes on and
+	//     requires the index to hold the log and later compactions to work.
+	c04SigDumpDiscard = "C04:tbtree.Compact:dump-fails-eof-node-log-chunk-discarded-by-concurrent-flush"
 )
 
 var c04DoIndexingRe = regexp.MustCompile(`store\.\(\*indexer\)\.doIndexing\((0x[0-9a-f]+)`)
@@ -219,16 +230,21 @@ type c04DumpHook struct {
 	delay   time.Duration
 	nHits   int32
 	busy    []string // restarts during which the indexer's own goroutine was still at work (restartCensus)
+	atStart  int32             // 1: (probe) stop the dump before it reads its first node (cLog.Metadata() at the top of fullDump)
+	dumping  map[string]bool   // index path -> a dump of it is reading nodes (from fullDump's start to its hLog.Sync())
+	discards map[string]int64  // index path -> highest DiscardUpto offset its node log received while it was being dumped
 }
 
 func newC04DumpHook() *c04DumpHook {
-	return &c04DumpHook{fired: map[string]bool{}, hits: make(chan c04DumpHit), release: make(chan struct{})}
+	return &c04DumpHook{fired: map[string]bool{}, hits: make(chan c04DumpHit), release: make(chan struct{}), dumping: map[string]bool{}, discards: map[string]int64{}}
 }
 
 func (h *c04DumpHook) arm(mode int32, atRead bool, delay time.Duration) {
 	h.mu.Lock()
 	h.fired = map[string]bool{}
 	h.delay = delay
+	h.dumping = map[string]bool{}
+	h.discards = map[string]int64{}
 	h.mu.Unlock()
 	if atRead {
 		atomic.StoreInt32(&h.atRead, 1)
@@ -287,7 +303,45 @@ type c04HookApp struct {
 	kind    string // history | nodes
 }
 
+// cLog.Metadata() is the first thing fullDump asks for: the dump of this index starts reading nodes now
+func (a *c04HookApp) Metadata() []byte {
+	if a.kind == "commit" && atomic.LoadInt32(&a.h.on) != 0 && c04InDump() {
+		a.h.mu.Lock()
+		a.h.dumping[a.idxPath] = true
+		a.h.mu.Unlock()
+		if atomic.LoadInt32(&a.h.atStart) != 0 {
+			a.h.at(a.idxPath, "dump-start")
+		}
+	}
+	return a.Appendable.Metadata()
+}
+
+// flushTree discarding node-log chunks: did it happen while a dump of the same index was reading its nodes?
+func (a *c04HookApp) DiscardUpto(off int64) error {
+	if a.kind == "nodes" {
+		a.h.mu.Lock()
+		if a.h.dumping[a.idxPath] && off > a.h.discards[a.idxPath] {
+			a.h.discards[a.idxPath] = off
+		}
+		a.h.mu.Unlock()
+	}
+	return a.Appendable.DiscardUpto(off)
+}
+
+func (h *c04DumpHook) takeDiscard(idxPath string) (int64, bool) {
+	h.mu.Lock()
+	defer h.mu.Unlock()
+	off, ok := h.discards[idxPath]
+	delete(h.discards, idxPath)
+	return off, ok
+}
+
 func (a *c04HookApp) Sync() error {
+	if a.kind == "history" && c04InDump() {
+		a.h.mu.Lock()
+		delete(a.h.dumping, a.idxPath) // the nodes of the dump have been written
+		a.h.mu.Unlock()
+	}
 	if a.kind == "history" && atomic.LoadInt32(&a.h.on) != 0 && atomic.LoadInt32(&a.h.noDump) == 0 && c04InDump() {
 		a.h.at(a.idxPath, "hlog-sync")
 	}
@@ -395,6 +449,8 @@ func (h *c04DumpHook) factory() store.AppFactoryFunc {
 				return &c04HookApp{Appendable: app, h: h, idxPath: rootPath, kind: "history"}, nil
 			case strings.HasPrefix(subPath, "nodes"):
 				return &c04HookApp{Appendable: app, h: h, idxPath: rootPath, kind: "nodes"}, nil
+			case strings.HasPrefix(subPath, "commit"):
+				return &c04HookApp{Appendable: app, h: h, idxPath: rootPath, kind: "commit"}, nil
 			}
 		}
 		return app, nil
@@ -561,10 +617,23 @@ func (c *c04Case) collectCompactions(before []uint64) []c04Compaction {
 		if id == before[i] {
 			continue
 		}
-		cl := "err:no-ts-file"
-		if ts, ok := c04ClaimedTs(p, id); ok {
-			cl = fmt.Sprintf("ok %d", ts)
+		ts, ok := c04ClaimedTs(p, id)
+		if !ok {
+			// fullDump writes the TIMESTAMP file only when the dump succeeded: a folder without one is what a FAILED
+			// compaction left behind (the index was not restarted; the next Open discards the folder)
+			if !c.failedDumps[p][id] {
+				if c.failedDumps == nil {
+					c.failedDumps = map[string]map[uint64]bool{}
+				}
+				if c.failedDumps[p] == nil {
+					c.failedDumps[p] = map[uint64]bool{}
+				}
+				c.failedDumps[p][id] = true
+				c.r.Count("compact.failed-dump-folder-left-behind")
+			}
+			continue
 		}
+		cl := fmt.Sprintf("ok %d", ts)
 		out = append(out, c04Compaction{idx: i, snapTs: id, claimed: cl})
 		before[i] = id
 	}
@@ -635,12 +704,14 @@ func (c *c04Case) gatedCompaction(g *c04Gen, atRead bool) error {
 			if werr != nil {
 				return werr
 			}
-			if !c04CompactErrOK(err) {
+			if err != nil && c.compactErrClass(err) == "other" {
 				c.fail(c04SigCompactErr, fmt.Sprintf("CompactIndexes interleaved with commits: %v", err))
 				return errors.New("stuck")
 			}
 			if err != nil {
-				c.r.Count("compact.result." + c04ErrClass(err))
+				if cl := c04ErrClass(err); cl != "other" {
+					c.r.Count("compact.result." + cl)
+				}
 			} else {
 				c.r.Count("compact.result.ok")
 			}
@@ -674,6 +745,31 @@ func (c *c04Case) healOthers(except int) bool {
 		}
 	}
 	return true
+}
+
+var c04DumpErrRe = regexp.MustCompile(`dumping index '([^']+)' \{ts=(\d+)\} returned: EOF$`)
+
+// classification of a CompactIndexes() error; D4 is recognised by its cause and reported, the case goes on
+func (c *c04Case) compactErrClass(err error) string {
+	cl := c04ErrClass(err)
+	if cl != "other" || c.hook == nil {
+		return cl
+	}
+	m := c04DumpErrRe.FindStringSubmatch(err.Error())
+	if m == nil {
+		return cl
+	}
+	off, ok := c.hook.takeDiscard(m[1])
+	if !ok {
+		return cl
+	}
+	i := c.idxOfPath(m[1])
+	c.r.OracleChecks++
+	desc := fmt.Sprintf("CompactIndexes() = %q: while the snapshot of index %d (%s) at ts %s was being dumped (without the tree lock) the node log of that index received DiscardUpto(%d) from a concurrent synced flush (the indexer's BulkInsert reaching FlushThld) — Compact's snapshot is not registered in t.snapshots, so flushTree removed the chunk files the dumped root still points into and the dump's node read hit a missing file (io.EOF). The index is not restarted; the oracle goes on: content = log at the next quiescent point, later compactions must work", err.Error(), i, m[1][len(c.dir):], m[2], off)
+	c.op("KNOWN %s", desc)
+	c.r.Count("compact.result.dump-chunk-discarded")
+	c.r.Fail(c04SigDumpDiscard, desc, c.replay(desc))
+	return "dump-chunk-discarded"
 }
 
 func c04ErrClass(err error) string {
@@ -736,14 +832,18 @@ func (c *c04Case) freeCompaction(txs []c04Tx, before []uint64) ([]c04Compaction,
 		}
 		c.hook.mu.Lock()
 		c.hook.fired = map[string]bool{}
+		c.hook.dumping = map[string]bool{}
+		c.hook.discards = map[string]int64{}
 		c.hook.mu.Unlock()
 		err := c.st.CompactIndexes()
-		if !c04CompactErrOK(err) {
+		if err != nil && c.compactErrClass(err) == "other" {
 			cerr = fmt.Errorf("CompactIndexes: %w", err)
 			break
 		}
 		if err != nil {
-			c.r.Count("compact.result." + c04ErrClass(err))
+			if cl := c04ErrClass(err); cl != "other" {
+				c.r.Count("compact.result." + cl)
+			}
 		} else {
 			c.r.Count("compact.result.ok")
 		}
